@@ -6,7 +6,7 @@
                            element inside the container gets a path that the destination index already has (there is no
                            uniqueness check on this route: finding C04-move-container-duplicates-paths, two-model form)
      Known04a / Known05a   the finding classes of C04 / C05 used by the closed statements for all 26 constructors *)
-From AV Require Import Base.Bytes Base.Outcome Hash.HashModel Tree.Heap Tree.Ops Tree.Script Tree.Index Tree.Refs Tree.Follow.
+From AV Require Import Base.Bytes Base.Outcome Hash.HashModel Tree.Heap Tree.Ops Tree.Script Tree.Index Tree.Refs Tree.Follow Tree.Inv Tree.Copy.
 Open Scope string_scope.
 Open Scope list_scope.
 Open Scope N_scope.
@@ -106,6 +106,34 @@ Definition Known05a (w : world) (o : op) : bool :=
     | _ => false
     end
   | _ => Known05 T tab_el tab_en check_fn LATEST root_attrs w o
+  end.
+
+(* ---------- AutosarModel::duplicate: new model, files, one copy per root child, file membership.  The side condition is the
+   conjunction of the classes of the copy steps (C03's, C04's and C05's), decided along the run *)
+Fixpoint dup_children_clean (croot : id) (items : list citem) (w : world) : bool :=
+  match items with
+  | [] => true
+  | CData _ :: rest => dup_children_clean croot rest w
+  | CElem e :: rest =>
+    negb (Inv.Known T tab_el tab_en check_fn LATEST root_attrs w (OpCopy croot e))
+    && negb (Known04a w (OpCopy croot e)) && negb (Known05a w (OpCopy croot e))
+    && match e_create_copied_sub_element T LATEST croot e w with
+       | Val (OK _, w1) => dup_children_clean croot rest w1
+       | _ => true
+       end
+  end.
+Definition dup_prefix (m : N) : W (N * node * model * list (list N * N)) :=
+  (do x <- get_model m;
+   do c <- new_model T root_attrs;
+   do rn <- get_node (m_root x);
+   do cx <- get_model c;
+   modify_node (m_root cx) (fun r => set_comment (set_attrs r (n_attrs rn)) (n_comment rn));;
+   do filemap <- dup_files T c (m_files x) [];
+   wret (c, rn, cx, filemap))%W.
+Definition dup_clean (w : world) (m : N) : bool :=
+  match dup_prefix m w with
+  | Val (OK (_, rn, cx, _), w1) => dup_children_clean (m_root cx) (n_content rn) w1
+  | _ => true
   end.
 
 End RefsAll.
